@@ -56,6 +56,7 @@ type Slice struct {
 type Str struct {
 	S string
 	B []*term.Term
+	A *Slice // opt-in model "unsafe-string-alias": the string shares the bytes of this slice and is read when it is used
 }
 
 type Iface struct {
